@@ -6,7 +6,7 @@ export GOFLAGS=-mod=mod GOPROXY=off GOSUMDB=off GOTOOLCHAIN=local
 cd /verif || exit 1
 if [ -n "$(git -C /repo status --porcelain)" ]; then echo "REPO DIRTY"; exit 1; fi
 ok=0; bad=0
-for d in seeded/${1}*/; do
+for d in /verif/seeded/${1}*/; do
   id=$(basename $d)
   chk=$(python3 -c "import json;m=json.load(open('$d/meta.json'));print(m['caught_by'][0].split()[0])")
   if ! git -C /repo apply --check $d/patch.diff 2>/dev/null; then echo "$id: PATCH DOES NOT APPLY"; bad=$((bad+1)); continue; fi
